@@ -54,6 +54,14 @@ func (x *Exec) strConst(s string) *smt.Term {
 	return t
 }
 
+// strCount: strings.Count as an uninterpreted function with a non-negative result.
+func (x *Exec) strCount(s, sub *smt.Term) *smt.Term {
+	B := x.B
+	c := B.UF("strcount", I64, s, sub)
+	x.assumeGlobal(B.BVCmp("bvsge", c, B.BVC(0, 64)))
+	return c
+}
+
 // rank is an order-embedding of byte strings (lexicographic order) into the open real interval (0,1).
 // Such an embedding exists because the strings are a countable total order; under it the strings
 // with a given prefix p are exactly those with rank(p) <= rank(s) < prefixub(p).
@@ -120,7 +128,10 @@ func (x *Exec) strSub(s, lo, hi *smt.Term) *smt.Term {
 	x.strAxioms()
 	B := x.B
 	r := B.UF("strsub", StrS, s, lo, hi)
-	x.assumeGlobal(B.Eq(x.strLen(r), B.BVBin("bvsub", hi, lo)))
+	// the length fact holds for an in-range slice only: asserted unguarded, a slice expression on one
+	// path (or in a contract) would force 0 <= lo <= hi on every other path as well
+	inRange := B.And(B.BVCmp("bvsle", B.BVC(0, 64), lo), B.BVCmp("bvsle", lo, hi), B.BVCmp("bvsle", hi, x.strLen(s)))
+	x.assumeGlobal(B.Implies(inRange, B.Eq(x.strLen(r), B.BVBin("bvsub", hi, lo))))
 	return r
 }
 
@@ -353,6 +364,7 @@ func (x *Exec) pureLib(name string, res func(args []Value) Value) {
 func (x *Exec) registerLib() {
 	B := x.B
 	x.pureLib("strings.HasPrefix", func(a []Value) Value { return x.hasPrefix(a[0].(*smt.Term), a[1].(*smt.Term)) })
+	x.pureLib("strings.Count", func(a []Value) Value { return x.strCount(a[0].(*smt.Term), a[1].(*smt.Term)) })
 	x.pureLib("strings.Join", func(a []Value) Value {
 		ls := x.toLeaves(a[0], types.NewSlice(types.Typ[types.String]))
 		return B.UF("strings_join", StrS, append(ls, a[1].(*smt.Term))...)
